@@ -520,7 +520,21 @@ def _same(a, b):
 ENGINE_ERRORS = (Realification, NotImplementedError)
 
 
+WHITEBOX = {"used": False}
+
+
 def _harness_reads_missing_internal(e):
+    tb = e.__traceback__
+    last = None
+    while tb is not None:
+        last = tb
+        tb = tb.tb_next
+    if last is not None and WHITEBOX["used"] and isinstance(e, (TypeError, AttributeError, IndexError, KeyError, ValueError)):
+        # a unit that drives an internal (private) routine directly: an exception raised in the harness' own frame
+        # means the routine's calling convention changed, not that the property fails
+        here = os.path.dirname(os.path.dirname(os.path.abspath(__file__)))
+        if os.path.abspath(last.tb_frame.f_code.co_filename).startswith(os.path.join(here, "harness")):
+            return True
     if not isinstance(e, AttributeError):
         return False
     tb = e.__traceback__
@@ -535,7 +549,12 @@ def _harness_reads_missing_internal(e):
     if not os.path.abspath(fn).startswith(os.path.join(here, "harness")):
         return False
     obj = getattr(e, "obj", None)
-    mod = getattr(obj, "__name__", None) if isinstance(obj, types.ModuleType) else getattr(type(obj), "__module__", "")
+    if isinstance(obj, types.ModuleType):
+        mod = getattr(obj, "__name__", None)
+    elif isinstance(obj, type):
+        mod = getattr(obj, "__module__", "")
+    else:
+        mod = getattr(type(obj), "__module__", "")
     # an attribute of a package object the harness relied on, or a mistake inside the harness itself
     return bool(mod) and str(mod).split(".")[0] in ("inference", "harness", "symnp")
 
